@@ -331,7 +331,7 @@ def replay(ob, model, finding=None):
         cands = [[[0., 10., -3.], [10., 40., -1.]], [[0., 10., 1.], [10., 40., 3.]], [[0., 40., 2.]]]
         kind = "pwl"
     else:
-        cands = [[0.05, -3., 7.], [0.02, 2., 5.], [0., 1.5, 4.]] if m.get("quadratic", True) else [[0., -3., 7.], [0., 2., 5.]]
+        cands = [[0.05, -3., 7.], [0.02, 2., 5.], [0., 1.5, 4.], [0., 0., 6.]] if m.get("quadratic", True) else [[0., -3., 7.], [0., 2., 5.], [0., 0., 6.]]
         kind = "poly"
     script = f"""# replay of {ob.id}
 # oracle (property C17): after a converged OPF, net.res_cost equals the user's cost function of element type {et!r}
